@@ -2,6 +2,8 @@
 
 from __future__ import annotations
 
+import os
+
 from vf.combi import digits
 from vf.core import HarnessError, Job, new_result, viol
 from vf.guard import call as gcall
@@ -290,6 +292,123 @@ def _large_chunk(params, lo, hi):
     return r
 
 
+# ---------------------------------------------------------------------- deep graphs, one subprocess per case
+# A native stack overflow inside the extension kills the interpreter, so these cases cannot run inside a pool worker:
+# each (function, graph, back-end) runs in its own interpreter and prints a digest of its answer.
+
+DEEP_N = 120000
+DEEP_FUNCS = ["strongly_connected_components_edges", "topological_sort_edges", "bfs_edges", "dfs_edges", "dijkstra_edges", "bellman_ford", "kruskal", "pagerank_edges"]
+DEEP_GRAPHS = ["path", "cycle", "reversed_path_listing"]
+
+_DEEP_SCRIPT = r"""
+import sys, hashlib, json
+sys.path.insert(0, sys.argv[1])
+import solvor
+fname, graph, be, N = sys.argv[2], sys.argv[3], sys.argv[4], int(sys.argv[5])
+if graph == "path":
+    el = [(i, i + 1) for i in range(N - 1)]
+elif graph == "cycle":
+    el = [(i, (i + 1) % N) for i in range(N)]
+else:
+    el = [(i, i + 1) for i in range(N - 2, -1, -1)]
+kw = {} if be == "default" else {"backend": be}
+fn = getattr(solvor, fname)
+if fname in ("strongly_connected_components_edges", "topological_sort_edges"):
+    r = fn(N, el, **kw)
+elif fname in ("bfs_edges", "dfs_edges"):
+    r = fn(N, el, 0, **kw)
+elif fname == "dijkstra_edges":
+    r = fn(N, [(u, v, 1.0) for u, v in el], 0, **kw)
+elif fname == "bellman_ford":
+    if graph == "reversed_path_listing":  # worst-case listing: n rounds of m relaxations each, so a fortieth of the size
+        N = N // 40
+        el = [(i, i + 1) for i in range(N - 2, -1, -1)]
+    r = fn(0, [(u, v, 1.0) for u, v in el], N, **kw)
+elif fname == "kruskal":
+    r = fn(N, [(u, v, float(1 + (u % 3))) for u, v in el], **kw)
+else:
+    N = N // 10
+    el = [e for e in el if e[0] < N and e[1] < N]
+    r = fn(N, el, max_iter=30, **kw)
+sol = r.solution
+if fname == "strongly_connected_components_edges":
+    canon = sorted(sorted(c) for c in sol)
+    order_ok = True
+    pos = {}
+    for i, c in enumerate(sol):
+        for x in c:
+            pos[x] = i
+    for u, v in el:
+        if pos[u] < pos[v]:
+            order_ok = False
+    digest = [len(sol), hashlib.sha1(repr(canon).encode()).hexdigest(), order_ok]
+elif fname == "topological_sort_edges":
+    ok = None
+    if sol is not None:
+        pos = {x: i for i, x in enumerate(sol)}
+        ok = len(pos) == N and all(pos[u] < pos[v] for u, v in el)
+    digest = [ok]
+elif fname == "dfs_edges":
+    digest = [sorted(sol) == list(range(N)) if graph != "x" else None, len(sol)]
+elif fname == "kruskal":
+    digest = [len(sol) if sol is not None else None]
+elif fname == "pagerank_edges":
+    digest = [round(sum(sol.values()), 9), round(max(sol.values()), 6), round(min(sol.values()), 9)]
+elif isinstance(sol, dict):
+    digest = [len(sol), hashlib.sha1(repr(sorted(sol.items())).encode()).hexdigest()]
+else:
+    digest = [hashlib.sha1(repr(sol).encode()).hexdigest()]
+# the objective is compared where it carries meaning (number of components, total weight, distance), as in compare()
+obj = r.objective if fname in ("strongly_connected_components_edges", "kruskal") else None
+print(json.dumps({"status": r.status.name, "objective": obj, "digest": digest}))
+"""
+
+
+def _deep_chunk(params, lo, hi):
+    import json
+    import subprocess
+    import sys as _sys
+
+    overlay = os.environ.get("SOLVOR_OVERLAY")
+    if not overlay:
+        raise HarnessError("SOLVOR_OVERLAY is not set (C12 cannot run)")
+    r = new_result()
+    for idx in range(lo, hi):
+        fname = DEEP_FUNCS[idx // len(DEEP_GRAPHS)]
+        graph = DEEP_GRAPHS[idx % len(DEEP_GRAPHS)]
+        wit = {"function": fname, "deep": graph, "n": DEEP_N}
+        r["n"] += 1
+        r["nontrivial"] += 1
+        out = {}
+        for be in ("python", "rust", "default"):
+            try:
+                p = subprocess.run([_sys.executable, "-B", "-c", _DEEP_SCRIPT, overlay, fname, graph, be, str(DEEP_N)], capture_output=True, text=True, timeout=900)
+            except subprocess.TimeoutExpired:
+                out[be] = ("timeout", None)
+                continue
+            if p.returncode != 0:
+                last = (p.stderr.strip().splitlines() or [""])[-1][:160]
+                out[be] = ("died", f"exit status {p.returncode}" + (" (killed by signal %d)" % -p.returncode if p.returncode < 0 else "") + (f": {last}" if last else ""))
+            else:
+                try:
+                    out[be] = ("ok", json.loads(p.stdout.strip().splitlines()[-1]))
+                except Exception:  # noqa: BLE001
+                    out[be] = ("died", "no digest printed")
+        how = f"{fname} on a {graph} of {DEEP_N} nodes"
+        label = "/".join(out[be][0] for be in ("python", "rust", "default"))
+        r["outcomes"][f"deep:{label}"] += 1
+        py, rs, df = out["python"], out["rust"], out["default"]
+        if py[0] == "ok" and rs[0] != "ok":
+            r["violations"].append(viol(fname, "rust_backend_crashed", wit, f"{how}: backend='python' answers {py[1]['status']}, backend='rust' {rs[0]}: {rs[1]}"))
+        elif py[0] != "ok" and rs[0] == "ok":
+            r["violations"].append(viol(fname, "python_backend_crashed", wit, f"{how}: backend='rust' answers {rs[1]['status']}, backend='python' {py[0]}: {py[1]}"))
+        elif py[0] == "ok" and rs[0] == "ok" and py[1] != rs[1]:
+            r["violations"].append(viol(fname, "deep_answers_differ", wit, f"{how}: python {py[1]}, rust {rs[1]}"))
+        if rs[0] == "ok" and (df[0] != "ok" or df[1] != rs[1]):
+            r["violations"].append(viol(fname, "default_is_not_rust", wit, f"{how}: default backend {df}, rust {rs[1]}"))
+    return r
+
+
 def _strip(kw):
     return {k: v for k, v in kw.items() if k not in ("source", "start")}
 
@@ -307,6 +426,7 @@ def jobs(tier, seed):
         js.append(Job(f"{fname}_n{n}_len{L}{tag}", nopt**L, _chunk, (fname, n, L, weights), describe=f"all ordered edge lists of {L} edges on {n} nodes" + (f", weights {weights}" if weights else "")))
 
     js.append(Job("large_structured", len(large_cases()), _large_chunk, None, chunk=4, describe="the nine functions on the larger structured graphs of C11 and C13 (chains of 40, grids, complete graphs on 9-13 nodes, 70-node path and cycle) and two kruskal instances whose unions merge rank-2 trees through non-root members"))
+    js.append(Job("deep_subprocess", len(DEEP_FUNCS) * len(DEEP_GRAPHS), _deep_chunk, None, chunk=1, describe=f"eight functions on a directed path, a cycle and a path listed backwards, {DEEP_N} nodes each (pagerank: a tenth), every back-end in its own interpreter: a native stack overflow must not kill the caller, digests of the answers must agree"))
     th = tier == "thorough"
     for fname, weights in (("floyd_warshall", W), ("dijkstra_edges", W), ("kruskal", W)):
         for L in (0, 1, 2, 3):
@@ -330,6 +450,13 @@ def replay(v):
 
     w = v["witness"]
     fname = w["function"]
+    if w.get("deep"):
+        i = DEEP_FUNCS.index(fname) * len(DEEP_GRAPHS) + DEEP_GRAPHS.index(w["deep"])
+        r = _deep_chunk(None, i, i + 1)
+        for x in r["violations"]:
+            if x["kind"] == v["kind"]:
+                return x
+        return r["violations"][0] if r["violations"] else None
     fn = getattr(solvor, fname)
     args = [[tuple(e) for e in a] if isinstance(a, list) else a for a in w["args"]]
     kw = dict(w["kwargs"])
